@@ -62,6 +62,8 @@ class Sx:
             if lo == hi:
                 return lo
             CTX.solver.add(z3.And(v >= lo, v <= hi))
+            if not (lo <= 0 <= hi):
+                CTX.model = None      # model completion would assign 0, outside the declared range
             p = SymInt(v, lo, hi)
             CTX.vars[name] = p
             CTX.var_order.append(name)
